@@ -36,7 +36,7 @@ def region_jobs(tier):
 
 
 # jobs of other properties that run under a symbolic allocation-failure mask: (module, name filter)
-BORROW = [("C20", lambda n: True), ("C17", lambda n: n.startswith(("api.insert.n", "lifecycle"))), ("C18", lambda n: "alloc" in n or "create" in n),
+BORROW = [("C20", lambda n: n.startswith("setter")), ("C17", lambda n: n.startswith(("api.insert.n", "lifecycle"))), ("C18", lambda n: "alloc" in n or "create" in n),
           ("C14", lambda n: "alloc" in n or "setter" in n)]
 
 
